@@ -44,7 +44,7 @@ RULE = ('A case is a generated audit trail on the in-memory ZooKeeper: 2-7 '
 ASSUMPTIONS = [
     'in-memory ZooKeeper (pbt/fakezk.py) stands in for the ensemble; a crash '
     'of the archiver = the k-th mutating ZooKeeper call raising a '
-    'harness-private exception; a failed request = that call raising '
+    'harness-private BaseException; a failed request = that call raising '
     'kazoo.exceptions.ConnectionLoss / SessionExpiredError without being '
     'applied (the applied-but-reply-lost flavour of ConnectionLoss is not '
     'modelled)',
@@ -65,7 +65,7 @@ ASSUMPTIONS = [
     'when available, else under /tmp',
 ]
 TRUSTED = ['pbt/fakezk.py', 'pbt/vclock.py', 'pbt/archiver.py']
-BUDGET = {'quick': 400, 'thorough': 16000}
+BUDGET = {'quick': 1200, 'thorough': 24000}
 
 SECOND = 1000000
 DAY = 24 * 3600 * SECOND
@@ -251,8 +251,8 @@ def execute(case, stats):
                         'fault point %d of %d not reached (%s, %d)' % (
                             point, writes, outcome, done))
                 if kind == 'stop' and outcome != 'stopped':
-                    raise AssertionError('the code under test handled the '
-                                         'harness-private stop exception')
+                    raise AssertionError('the code under test caught '
+                                         'BaseException: cannot model a stop')
                 stats.count('crash_points')
                 stats.count('crash_points:' + kind)
                 stats.count('fault_at:%s' % where)
